@@ -199,6 +199,13 @@ func TestC14_Grid(t *testing.T) {
 			run(&callCase{Fn: "NewMnemonic", Lang: l, N: n})
 		}
 	}
+	for k := uint(8); k < 64; k++ {
+		for _, m := range []int64{1, -1, 2} {
+			for _, v := range []int64{12, 15, 18, 21, 24} {
+				run(&callCase{Fn: "NewMnemonic", Lang: int64(bip39.English), N: v + m<<k})
+			}
+		}
+	}
 	maxLen := pick(1024, 4096)
 	for sz := 0; sz <= maxLen; sz++ {
 		run(&callCase{Fn: "NewMnemonicByEntropy", Lang: []int64{int64(bip39.English), int64(bip39.Korean), -1, 10}[sz%4], Unit: text([]string{"\x00", "\xff", "\x5a"}[sz%3]), Times: sz})
